@@ -1,0 +1,14 @@
+//go:build verif
+
+// Machine-checked contracts (Gobra-style //@ comments) for the verification harness in /verif.
+// This file contains no code; it is compiled only under the build tag "verif".
+package types
+
+//@ pred wfPartSet(ps *PartSet) = ps != nil && ps.total >= 0 && len(ps.parts) == ps.total && ps.partsBitArray != nil && 0 <= ps.count && ps.count <= ps.total
+
+//@ func (*PartSet).AddPart
+//@   props C17 C08
+//@   requires wfPartSet(ps) && part != nil
+//@   ensures  result0 ==> 0 <= part.Index && part.Index < ps.total && old(ps.parts[part.Index]) == nil && ps.parts[part.Index] == part && ps.count == old(ps.count) + 1
+//@   ensures  !result0 ==> ps.count == old(ps.count)
+//@   ensures  result1 != nil ==> !result0
